@@ -231,3 +231,30 @@ func VerifC05_Direct() {
 	vr.Assert(err == nil, "decode-ok")
 	c05same(v, w, b)
 }
+
+// bundle-add wrapping each vendor / small message kind, with 0..2 properties (with data) behind
+// the embedded message: the embedded message must not swallow what follows it
+func VerifC05_BundleAddWithProperties() {
+	k := []int{17, 18, 19, 20, 6}[vr.Choice("inner", 5)]
+	vr.Tag("inner", msgKindNames[k])
+	inner := buildMessage(k)
+	c05prep(inner)
+	ba := &BundleAdd{BundleID: vr.U32("bundle"), Flags: vr.U16("bflags"), Message: inner}
+	np := vr.IntRange("nprops", 0, 2)
+	for i := 0; i < np; i++ {
+		p := NewBundlePropertyExperimenter()
+		p.ExperimenterID, p.ExperimenterType = vr.U32("expid"), vr.U32("exptype")
+		p.data = vr.Bytes("propdata", []int{0, 3, 4}[vr.Choice("propdatalen", 3)])
+		p.Length = 12 + uint16(len(p.data))
+		ba.Properties = append(ba.Properties, *p)
+	}
+	v := NewBundleAdd(ba)
+	b, err := v.MarshalBinary()
+	vr.Assert(err == nil, "marshal-ok")
+	in := make([]byte, len(b))
+	copy(in, b)
+	w, err := Parse(in)
+	vr.Assert(err == nil, "parse-ok")
+	vr.Assert(w != nil, "parsed-non-nil")
+	c05same(v, w, b)
+}
